@@ -200,6 +200,13 @@ def step (st : State) (w : List String) : State × String :=
       let ps := persistVer ps (ps.version - 1)
       ({ st with ps := ps }, s!"lp={ps.lastPersisted} {fileStr ps.main}")
     | _, _ => (st, "bad-op")
+  | ["bl", "wserve", name, qt] =>
+    -- wire-born request: the handler's decision and reply are those of the message-born one
+    match hexStr name, qt.toNat? with
+    | some q, some t =>
+      let log := serveLog st.cfg st.ps.mem st.replies q t
+      ({ st with replies := log }, serveStr (serveDNS st.cfg st.ps.mem q t))
+    | _, _ => (st, "bad-op")
   | ["bl", "serve", name, qt] =>
     match hexStr name, qt.toNat? with
     | some q, some t =>
